@@ -1168,6 +1168,38 @@ def check_io(rep, tier):
 
 
 # --------------------------------------------------------------------------- entry point
+def check_cyclic(rep):
+    """values that contain themselves (only possible through a cell): every function that walks a value
+    -- to_string, print, len of the text, equality with itself -- returns"""
+    builds = {
+        "cell-struct": "m := mut any (); m = struct{a := m};",
+        "cell-array": "m := mut any (); m = [m, 1];",
+        "cell-tuple": "m := mut any (); m = (m, 1);",
+        "cell-cell": "m := mut any (); n := mut any m; m = n;",
+        "cell-struct-array": "m := mut any (); m = struct{a := [struct{b := m}]};",
+        "two-cells": "m := mut any (); n := mut any struct{x := m}; m = struct{y := n};",
+    }
+    uses = {
+        "to_string": "std.len(std.convert.to_string(m)) > 0",
+        "to_string-of-content": "std.len(std.convert.to_string(*m)) > 0",
+        "in-array": "std.len(std.convert.to_string([m, m])) > 0",
+        "self-equal": "m == m",
+    }
+    cases, meta = [], []
+    for bn, b in builds.items():
+        for un, u in uses.items():
+            cases.append(f'(run "{esc_prog(b + " " + u)}")')
+            meta.append((bn, un))
+    # each case on its own: a stack overflow aborts the worker process
+    for c, (bn, un) in zip(cases, meta):
+        o = common._run_shard(common.HARNESS, [c], 60)[0]
+        rep.evaluations += 1
+        rep.compared += 1
+        rep.count("L12.cyclic")
+        if o != "ok (b true)":
+            violation(rep, f"a self-containing value ({bn}) given to {un}: the call does not return a value ({o[:100]})", c)
+
+
 def run(rep, tier):
     live = check_table(rep)
     if live is None:
@@ -1177,6 +1209,7 @@ def run(rep, tier):
     ops = check_operators(rep, tier, live)
     check_fs(rep, tier)
     check_io(rep, tier)
+    check_cyclic(rep)
     called = set(per_fn) | ops | {p for p in live if p.startswith("std.fs.") or p.startswith("std.io.")}
     never = sorted(p for p in live if p not in called)
     if never:
